@@ -234,6 +234,38 @@ theorem C06_call_names_resolve_as_in_python (params : List CondParam) (kwargs cl
         rw [hqn, hk] at this
         simp at this
 
+/-- **The whole chain for a call.**  The re-evaluator run on the table the library builds for a call
+(`Tbl.ofCall`: the arguments the condition takes, the defaults of its other parameters, its closure, its globals) computes
+Python's value and records Python's values, where "Python" evaluates the condition in the scope in which every name means
+what `pyResolve` says: a parameter is the argument passed for it, else its default; any other name is the closure variable,
+else the global - whatever else the call of the decorated function carried. -/
+theorem C06_call_recomputed_values_are_pythons (ops : Ops) (bi : List (String × Val))
+    (params : List CondParam) (kwargs closure globals : List (String × Val)) (e : Expr) (v : Val) (P : Log)
+    (hnodup : (params.map (·.1)).Nodup) (hbound : ∀ q ∈ params, q.2 = none → (lookup kwargs q.1).isSome)
+    (hwf : e.wf = true) (hid : (allIds e).Nodup)
+    (h : pyEval ops ⟨(Tbl.ofCall params kwargs closure globals).values, bi⟩ e = .ok (v, P)) :
+    (∀ n, lookup (Tbl.ofCall params kwargs closure globals).values n = pyResolve params kwargs closure globals n) ∧
+    (visit ops bi (Tbl.ofCall params kwargs closure globals) e).out = .ok (some v) ∧
+    ((visit ops bi (Tbl.ofCall params kwargs closure globals) e).log.filter (fun p => !(innerIds e).contains p.1)).Perm P := by
+  have hall : (Tbl.ofCall params kwargs closure globals).AllSome := ofLookups_allSome _
+  refine ⟨fun n => ?_, ?_⟩
+  · have h1 := lookup_values hall n
+    rw [C06_call_names_resolve_as_in_python params kwargs closure globals n hnodup hbound] at h1
+    cases hl : lookup (Tbl.ofCall params kwargs closure globals).values n with
+    | none =>
+      rw [hl] at h1
+      cases hr : pyResolve params kwargs closure globals n with
+      | none => rfl
+      | some x => rw [hr] at h1; cases h1
+    | some x =>
+      rw [hl] at h1
+      cases hr : pyResolve params kwargs closure globals n with
+      | none => rw [hr] at h1; cases h1
+      | some y => rw [hr] at h1; simpa using h1
+  · have hm := C06_recomputed_values_are_pythons ops ⟨(Tbl.ofCall params kwargs closure globals).values, bi⟩ e v P hwf hid h
+    simp only [ofNames_values hall] at hm
+    exact hm
+
 /-- an argument of the call which the condition does not take never shadows the condition's closure / global variable of
 that name (the defect repaired by e84b442) ... -/
 theorem C06_foreign_arguments_do_not_shadow (params : List CondParam) (kwargs kwargs' closure globals : List (String × Val))
